@@ -331,6 +331,7 @@ structure PreSpec (needs : Local W → Bool) (d d3 : Daemon W) (R N : List (Conn
   log : d3.log = d.log
   resumed : (if d.allowSuspend then resumeSuspended d else d).conns = R ++ d.conns
   newIds : ids N = ids d.newc ∨ N = []
+  newFrom : ∀ x ∈ N, ∃ y ∈ d.newc, x.loc.st = y.loc.st
 
 theorem hasProcess_read : Eli.read.hasProcess = false := by decide
 
@@ -381,7 +382,8 @@ theorem pre_stage {needs : Local W → Bool} {d : Daemon W} (h : InvSP needs d) 
   cases hn : d1.haveNew
   · -- no new connections
     have hnew : d.newc = [] := h.newcFlag (by rw [← RS.haveNew]; exact hn)
-    refine ⟨R, [], ⟨?_, ?_, ?_, ?_, ?_, ?_, ?_, ?_, by rw [hd1]; exact hR, Or.inr rfl⟩, ?_⟩
+    refine ⟨R, [], ⟨?_, ?_, ?_, ?_, ?_, ?_, ?_, ?_, by rw [hd1]; exact hR, Or.inr rfl,
+      by intro x hx; simp at hx⟩, ?_⟩
     · simpa using hR
     · intro c hc; simp at hc
     · simp only [Bool.false_eq_true, if_false]; rw [RS.epoll]; exact h.noep
@@ -400,7 +402,8 @@ theorem pre_stage {needs : Local W → Bool} {d : Daemon W} (h : InvSP needs d) 
     simp only []
     have hep1 : d1.epoll = false := by rw [RS.epoll]; exact h.noep
     refine ⟨R, d.newc.map (newConnF false), ⟨?_, ?_, ?_, ?_, ?_, ?_, ?_, ?_, by rw [hd1]; exact hR,
-      Or.inl (ids_map_newConnF _ _)⟩, ?_⟩
+      Or.inl (ids_map_newConnF _ _),
+      by intro x hx; obtain ⟨y, hy, rfl⟩ := List.mem_map.mp hx; exact ⟨y, hy, rfl⟩⟩, ?_⟩
     · show List.map (newConnF d1.epoll) d1.newc ++ d1.conns = _
       rw [hep1, RS.newc, hR]
     · intro c hc
